@@ -12,6 +12,7 @@
  "unwind_reason": "CACHE_SIZE is the constant 8; without a write-error handler the retry loop runs at most twice; --unwinding-assertions on, so the bounds are complete",
  "functions": ["lib/ext2fs/unix_io.c:flush_cached_blocks"],
  "assumes": ["no channel->write_error handler installed", "IO_FLAG_THREADS clear (schedules are outside this technique)"],
+ "backend": "cadical",
  "native": false
 }
 */
@@ -33,5 +34,110 @@ void h_flush(void)
 	CHECK(coherent(data), "flush keeps the cache coherent with the device");
 	CHECK(r != 0 || (!any_dirty(data) && g_disk == g_logical), "flush returning 0: device holds the most recently written byte, nothing dirty");
 	CHECK(r != 0 || !(IN.flush_flags & FLUSH_INVALIDATE) || !any_inuse(data), "flush+invalidate returning 0: no cache entry stays valid");
+	REACH("end");
+}
+
+/* ------------------------------------------------------------------ find_cached_block, reuse_cache */
+/* VERIF-UNIT
+{
+ "name": "find_cached_block",
+ "props": ["C17"],
+ "level": "U/k",
+ "tier": "quick",
+ "harness": "h_find",
+ "enforce": ["find_cached_block"],
+ "unwind": 6,
+ "unwindset": {"build_channel.0": 9, "find_cached_block.0": 9},
+ "unwind_reason": "CACHE_SIZE is the constant 8",
+ "defines": ["CFG_BS=16"],
+ "functions": ["lib/ext2fs/unix_io.c:find_cached_block"],
+ "assumes": ["IO_FLAG_THREADS clear", "fewer than 2^31 cache accesses per channel (data->access_time is a signed int that is incremented without a guard)"],
+ "backend": "cadical",
+ "native": false
+}
+*/
+/* VERIF-UNIT
+{
+ "name": "reuse_cache",
+ "props": ["C17"],
+ "level": "U",
+ "tier": "quick",
+ "harness": "h_reuse",
+ "enforce": ["reuse_cache"],
+ "replace": ["raw_write_blk"],
+ "unwind": 6,
+ "unwindset": {"build_channel.0": 9},
+ "unwind_reason": "only the harness loop that builds the 8 cache entries is unwound; reuse_cache itself is loop-free",
+ "defines": ["CFG_BS=16"],
+ "functions": ["lib/ext2fs/unix_io.c:reuse_cache"],
+ "assumes": ["IO_FLAG_THREADS clear", "fewer than 2^31 cache accesses per channel (data->access_time is a signed int that is incremented without a guard)"],
+ "backend": "cadical",
+ "native": false
+}
+*/
+#define IDX_OK(c) ((c) >= data->cache && (c) < data->cache + CACHE_SIZE)
+#define NOT_THIS(i) (!(E(i).in_use && E(i).block == block))
+#define UNUSED_OR_OLDER(i, c) (!E(i).in_use || (c)->access_time <= E(i).access_time)
+
+/* hit: the entry labelled `block`; miss: NULL and *eldest = an unused entry if there is one, else the LRU one */
+static struct unix_cache *find_cached_block(struct unix_private_data *data, unsigned long long block,
+					    struct unix_cache **eldest)
+	REQUIRES(eldest == 0 || __CPROVER_w_ok(eldest, sizeof(*eldest)))
+	REQUIRES(data->access_time >= 0 && data->access_time < 0x7fffff00)
+	ENSURES(RET == 0 || (IDX_OK(RET) && RET->in_use && RET->block == block))
+	ENSURES(RET != 0 || (NOT_THIS(0) && NOT_THIS(1) && NOT_THIS(2) && NOT_THIS(3) && NOT_THIS(4) && NOT_THIS(5) && NOT_THIS(6) && NOT_THIS(7)))
+	ENSURES(RET != 0 || eldest == 0 || (IDX_OK(*eldest) &&
+		(!(*eldest)->in_use || (any_inuse(data) && !(!E(0).in_use || !E(1).in_use || !E(2).in_use || !E(3).in_use || !E(4).in_use || !E(5).in_use || !E(6).in_use || !E(7).in_use) &&
+		 UNUSED_OR_OLDER(0, *eldest) && UNUSED_OR_OLDER(1, *eldest) && UNUSED_OR_OLDER(2, *eldest) && UNUSED_OR_OLDER(3, *eldest) &&
+		 UNUSED_OR_OLDER(4, *eldest) && UNUSED_OR_OLDER(5, *eldest) && UNUSED_OR_OLDER(6, *eldest) && UNUSED_OR_OLDER(7, *eldest)))))
+	ENSURES(coherent(data))
+	ASSIGNS(__CPROVER_object_whole(data), *eldest);
+
+static errcode_t reuse_cache(io_channel channel, struct unix_private_data *data, struct unix_cache *cache,
+			     unsigned long long block)
+	REQUIRES(data->access_time >= 0 && data->access_time < 0x7fffff00)
+	REQUIRES(IDX_OK(cache) && coherent(data) && NOT_THIS(0) && NOT_THIS(1) && NOT_THIS(2) && NOT_THIS(3) &&
+		 NOT_THIS(4) && NOT_THIS(5) && NOT_THIS(6) && NOT_THIS(7))
+	/* success: the entry is re-labelled and clean; a dirty victim reached the device under its OWN block number first */
+	ENSURES(RET != 0 || (cache->in_use && !cache->dirty && cache->block == block))
+	/* failure: nothing is re-labelled, the victim stays dirty */
+	ENSURES(RET == 0 || (cache->in_use && cache->dirty && cache->block == OLD(cache->block) && cache->write_err))
+	/* coherence at the ghost location, except that the re-labelled entry's buffer is still to be filled by the caller */
+	ENSURES(RET != 0 || block == g_bstar || coherent(data))
+	ENSURES(RET != 0 || block != g_bstar || g_disk == g_logical)
+	ENSURES(RET == 0 || coherent(data))
+	ASSIGNS(__CPROVER_object_whole(data), g_disk, g_nwrites);
+
+void h_find(void)
+{
+	build_channel();
+	struct unix_private_data *data = &DATA;
+	struct unix_cache *eld = 0;
+	unsigned long long block = IN.block;
+	int t0 = DATA.access_time;
+	ASSUME(t0 < 0x7fffffff);
+	struct unix_cache *r = find_cached_block(&DATA, block, (IN.which & 1) ? &eld : 0);
+	CHECK(r == 0 || (r->in_use && r->block == block), "a hit is the in-use entry labelled with the block");
+	CHECK(r != 0 || (NOT_THIS(0) && NOT_THIS(1) && NOT_THIS(2) && NOT_THIS(3) && NOT_THIS(4) && NOT_THIS(5) && NOT_THIS(6) && NOT_THIS(7)),
+	      "a miss means no in-use entry carries the block");
+	CHECK(coherent(data), "lookup keeps coherence");
+	REACH("end");
+}
+
+void h_reuse(void)
+{
+	build_channel();
+	struct unix_private_data *data = &DATA;
+	unsigned long long block = IN.block;
+	ASSUME(IN.which < CACHE_SIZE);
+	ASSUME(NOT_THIS(0) && NOT_THIS(1) && NOT_THIS(2) && NOT_THIS(3) && NOT_THIS(4) && NOT_THIS(5) && NOT_THIS(6) && NOT_THIS(7));
+	struct unix_cache *c = &DATA.cache[IN.which];
+	unsigned long long oldblk = c->block;
+	int was_match = c->in_use && c->block == g_bstar, was_dirty = c->in_use && c->dirty;
+	unsigned char bufbyte = c->buf[g_ostar];
+	errcode_t r = reuse_cache(&CH, &DATA, c, block);
+	CHECK(r != 0 || !(was_match && was_dirty) || g_disk == bufbyte, "a dirty victim is written to its own block before the entry is re-labelled");
+	CHECK(r != 0 || (c->in_use && !c->dirty && c->block == block), "re-labelled entry is clean and in use");
+	CHECK(r == 0 || (c->block == oldblk && c->dirty), "on a write error nothing is re-labelled");
 	REACH("end");
 }
